@@ -440,8 +440,20 @@ impl<'a> GeneratorState<'a> {
                         .syntax_error("Sizeof only works on variables and simple types", pos))
                 }
             }
-            Expr::Identifier(var, _) => {
+            Expr::Identifier(var, sub) => {
                 let v = self.compiler_state.find_variable(var, pos)?;
+                if !matches!(**sub, Expr::Nothing) {
+                    // One element of an array
+                    return match v.var_type {
+                        VariableType::CharPtr => Ok(ExprType::Immediate(1)),
+                        VariableType::ShortPtr | VariableType::CharPtrPtr => {
+                            Ok(ExprType::Immediate(2))
+                        }
+                        _ => Err(self
+                            .compiler_state
+                            .syntax_error("Subscript not allowed on variables", pos)),
+                    };
+                }
                 match v.var_type {
                     VariableType::CharPtr => {
                         if v.var_const {
